@@ -959,7 +959,7 @@ def EDFA(input: optical_signal, G: float, NF: float, BW: float=None):
     ase = ase[:2] + 1j*ase[2:]
 
     if output.noise is not None:
-        output.noise += ase
+        output.noise = output.noise + ase
     else:
         output.noise = ase
 
